@@ -61,6 +61,8 @@ def run(tier, seed, replay):
         for b in bases:
             ps = by_base[b]
             parts = []
+            # (one suffix is ignored - and one only: `x.wxml.wxml` names the file x.wxml)
+            dbl = [p for p in ps if p["r"] not in ("", "/") and not p["r"].endswith(("/", ".", ".."))][:2]
             for i, p in enumerate(ps):
                 suf = ".wxml" if i % 3 == 0 else ""
                 parts.append('<import src="%s%s"/>' % (p["r"], suf))
@@ -70,6 +72,8 @@ def run(tier, seed, replay):
             for i, p in enumerate(ps):
                 suf = ".wxs" if i % 2 == 0 else ""
                 parts.append('<wxs module="m%d" src="%s%s"/>' % (i, p["r"], suf))
+            for p in dbl:
+                parts.append('<import src="%s.wxml.wxml"/><include src="%s.wxml.wxml"/><wxs module="d%d" src="%s.wxs.wxs"/>' % (p["r"], p["r"], len(parts), p["r"]))
             vcases.append({"id": b, "files": [[b, "".join(parts)]], "want": ["deps"]})
         vres = vlib.run_vh("tmpl", vcases)
         for b, r in zip(bases, vres):
@@ -83,7 +87,10 @@ def run(tier, seed, replay):
                 continue
             # an empty src is a MissingSourcePath error: the element is dropped, not a reference
             exp = [p["x"] for p in ps if p["r"] != ""]
-            want_direct = exp + exp
+            dbl = [p for p in ps if p["r"] not in ("", "/") and not p["r"].endswith(("/", ".", ".."))][:2]
+            dx = [p["x"] + ".wxml" for p in dbl]
+            want_direct = exp + dx + exp + dx
+            exp = exp + [p["x"] + ".wxs" for p in dbl]          # (script references)
             if d["direct"] != want_direct:
                 k = next((i for i, (x, y) in enumerate(zip(d["direct"], want_direct)) if x != y), min(len(d["direct"]), len(want_direct)))
                 ck.report({"sig": "direct-deps", "pair": ps[k % len(ps)], "got": d["direct"][k:k + 3], "want": want_direct[k:k + 3]},
@@ -95,7 +102,7 @@ def run(tier, seed, replay):
     # 3. groups, every insertion order
     if gcases:
         if tier == "quick":
-            gcases = rnd.sample(gcases, min(len(gcases), 450))
+            gcases = rnd.sample(gcases, min(len(gcases), 2000))
         units = []
         for ci, case in enumerate(gcases):
             for v, srcs in semrun.build_sources(case, rnd, 1 if tier == "quick" else 2):
@@ -106,4 +113,39 @@ def run(tier, seed, replay):
                     units.append({"ci": ci, "v": "%s/order%d" % (v, oi), "srcs": list(order)})
         records = semrun.replay(gcases, rnd, units=units, prefix=False)
         c04.report_records(ck, gcases, records)
+        # the dependency queries of every file of every group: exactly the resolved import / include / script targets
+        # (as multisets: the property does not order them), wherever the tags stand (branches, lists, definitions)
+        def walk(nodes, out):
+            for n in nodes:
+                if n["t"] == "include":
+                    out.append(n["path"])
+                for key in ("ch", "els"):
+                    if isinstance(n.get(key), list):
+                        walk(n[key], out)
+                for b in n.get("brs", []) or []:
+                    walk(b["ch"], out)
+            return out
+        dcases = []
+        downer = []
+        for ci, case in enumerate(gcases):
+            for v, srcs in semrun.build_sources(case, rnd, 3):      # several spellings: directives on the tag itself or on a block
+                dcases.append({"id": len(dcases), "files": [[p_, t_] for p_, t_ in srcs], "want": ["deps"]})
+                downer.append(case)
+        for case, dc, r in zip(downer, dcases, vlib.run_vh("tmpl", dcases)):
+            if r["panic"]:
+                continue
+            for f in case["files"]:
+                d = (r.get("deps") or {}).get(f["path"])
+                if d is None:
+                    continue
+                inc = walk(f["root"], [])
+                for df in f.get("defs", []):
+                    walk(df["ch"], inc)
+                want = sorted(list(f.get("imports", [])) + inc)
+                ck.evaluations += 1
+                if sorted(d["direct"]) != want:
+                    ck.report({"sig": "direct-deps-group", "files": case["files"], "data": case["data"], "tree": case["tree"], "family": "F8",
+                               "file": f["path"], "got": d["direct"], "want": want},
+                              "direct_dependencies(%r) = %s, the file's import / include references resolve to %s\n%s" % (
+                                  f["path"], d["direct"], want, "\n".join("--- %s\n%s" % (p_, t_) for p_, t_ in dc["files"])))
     return ck.finish()
